@@ -23,6 +23,14 @@ Ok == /\ Ev.fn \notin {"crash", "timeout"} /\ Ev.guard
                 LET RECURSIVE Lines(_) Lines(i) == IF i > Len(Ev.s) THEN <<>> ELSE LET g == GetsFrom(Ev.s, i, <<>>, Ev.a - 1) IN <<g[1]>> \o Lines(g[2])
                 IN Ev.toks = Lines(1)
            [] Ev.fn = "between" -> LET r == Between(Ev.s, Ev.tok, Ev.word) IN Ev.ok = r[1] /\ Ev.out = r[2]
+           [] Ev.fn = "test" -> Ev.ok = (\A i \in 1..Len(Ev.s) : \E j \in 1..Len(Ev.tok) : Ev.tok[j] = Ev.s[i])
+           [] Ev.fn = "memdup" -> IF Ev.s = <<>> THEN ~Ev.ok ELSE Ev.ok /\ Ev.out = Ev.s
+           [] Ev.fn = "catf" -> Ev.out = Ev.s \o Ev.tok
+           [] Ev.fn = "dupf" -> Ev.ok /\ Ev.out = Ev.s \o Ev.tok
+           [] Ev.fn = "ip4" -> Ip4Ok(Ev.ok, Ev.s)
+           [] Ev.fn = "email" -> EmailOk(Ev.ok, Ev.s)
+           [] Ev.fn = "comma" -> Ev.out = CommaNumber(Ev.neg, Ev.q, Ev.r)
+           [] Ev.fn = "unique" -> Ev.ok /\ Len(Ev.out) = 32 /\ AllIn(Ev.out, LowerHex)
            [] OTHER -> FALSE
 Init == l = 1
 Next == /\ l <= NT /\ l' = l + 1
